@@ -20,10 +20,10 @@ RULES = {
     'E10': contracts.rule_E10, 'E11': contracts.rule_E11, 'OPT': contracts.rule_OPT, 'OPTDEP': contracts.rule_OPTDEP, 'EQ1': contracts.rule_EQ1, 'ITER1': contracts.rule_ITER1,
     'C': stream.rule_C, 'POSW': stream.rule_POSW, 'B1': stream.rule_B1, 'POST': stream.rule_POST, 'RB': stream.rule_RB, 'NOMOVE': stream.rule_NOMOVE,
     'I': dims.rule_I, 'B3': dims.rule_B3, 'N2a': dims.rule_N2a, 'IDX': dims.rule_IDX, 'TY1': dims.rule_TY1,
-    'B2': mutate.rule_B2, 'WB': mutate.rule_WB, 'N1': mutate.rule_N1, 'N2': mutate.rule_N2, 'N5': mutate.rule_N5, 'D5': mutate.rule_D5,
+    'B2': mutate.rule_B2, 'WB': mutate.rule_WB, 'N1': mutate.rule_N1, 'N2': mutate.rule_N2, 'N5': mutate.rule_N5, 'D5': mutate.rule_D5, 'RNG': mutate.rule_RNG, 'IDX1': mutate.rule_IDX1, 'SLN': mutate.rule_SLN,
     'E5': ingest.rule_E5, 'CHOKE': ingest.rule_CHOKE, 'LV': ingest.rule_LV,
     'G2': mode.rule_G2, 'G3': mode.rule_G3, 'G5': mode.rule_G5, 'E8': mode.rule_E8,
-    'H4': misc.rule_H4, 'ESC': misc.rule_ESC, 'DELEG': misc.rule_DELEG, 'PK': misc.rule_PK,
+    'H4': misc.rule_H4, 'ESC': misc.rule_ESC, 'DELEG': misc.rule_DELEG, 'PK': misc.rule_PK, 'INTEX': misc.rule_INTEX, 'LZ': misc.rule_LZ,
     'H5a': luts.rule_H5a, 'H5b': luts.rule_H5b, 'H5c': luts.rule_H5c,
 }
 
@@ -133,7 +133,7 @@ _p('C04', ['A1', 'A2', 'A3', 'A4', 'A5', 'A6', 'A7', 'A8', 'A9', 'A10', 'A11', '
                "the resolved call graph, per concrete class).",
    floors={'A1': 60, 'A4': 25, 'A5': 100})
 
-_p('C01', ['K', 'E6', 'J2', 'A10', 'A1', 'A11'],
+_p('C01', ['K', 'E6', 'J2', 'A10', 'A1', 'A11', 'SLN', 'IDX1'],
    decided=["the result of +, *, slicing and their reflected forms has exactly the class of the left (bitstring) operand, "
             "for each of the four classes",
             "a negative repeat count raises ValueError (guard agreement among __mul__/__imul__; __rmul__ delegates)",
@@ -189,14 +189,16 @@ _p('C08', ['J1', 'J2', 'L', 'A7', 'A8', 'A6', 'A3', 'A1', 'A11', 'ITER1'],
    explanation="Field read-confinement census, representation-invariant check of BitStore.modified_length (abstract "
                "state at the exits of its writers), ingress-copy rules.")
 
-_p('C10', ['D2', 'E9', 'J1', 'OPTDEP', 'A1'],
+_p('C10', ['D2', 'E9', 'J1', 'OPTDEP', 'A1', 'INTEX'],
    decided=["negative values for the unsigned codes are rejected (guard dominates the encoder)",
             "a truncated codeword raises ReadError (InterpretError through the property) and a codeword followed by "
             "extra bits is not accepted as a single value: exception translation chain decoder -> getter -> reader, "
             "index reads inside try/except IndexError, slice reads behind a remaining-bits test, length check",
             "position unchanged on failure: decoders take and return pos as a value (no _pos access outside bitstream.py)",
             "the codes refuse lsb0 mode consistently (setters and base decoders)",
-            "the interpretations read no module option except the lsb0 refusal; the remaining-bits test of each decoder equals (as a linear form) the end of the slice it protects; cached encoders never hand a shared store to a mutable object"],
+            "the interpretations read no module option except the lsb0 refusal; the remaining-bits test of each decoder equals (as a linear form) the end of the slice it protects; cached encoders never hand a shared store to a mutable object",
+            "exactness for arbitrarily large integers, in its necessary part: no function below the integer dtypes' set/get/read "
+            "functions uses true division, float() or math.* (all-integer arithmetic)"],
    declined=["exact codewords for every integer, decode(encode(i)) == i, prefix-freeness (arithmetic on unbounded integers)"],
    explanation="Exception-translation and guard-dominance checks over the four setters, four getters, the decoders and the "
                "reader closures of DtypeDefinition.")
@@ -226,14 +228,15 @@ _p('C16', ['A1', 'A3', 'A5', 'A8', 'A10', 'A11', 'E6', 'K', 'C', 'L', 'G3', 'POS
    explanation="Effect summaries per public operator, provenance of mutated temporaries, sibling guard agreement, "
                "result-class typing.")
 
-_p('C03', ['B2', 'WB', 'N1', 'B1', 'E2', 'E11', 'OPT', 'G5', 'A3', 'F2'],
+_p('C03', ['B2', 'WB', 'N1', 'B1', 'E2', 'E11', 'OPT', 'G5', 'A3', 'F2', 'RNG', 'IDX1'],
    decided=["an invalid position, range or value raises and leaves the content as it was: in every public mutator of "
             "BitArray/BitStream no explicit raise (directly, or in a loop through a raising callee) is reachable after the "
             "first change of self (operations over an iterable of positions exempt, by the property's wording)",
             "an operation given a [start, end) range never alters bits outside it, in its bounded-write part: loops of "
             "ranged in-place writes are bounded by the validated end",
             "helpers' position asserts are established by their public callers' guards",
-            "start/end are validated (or forwarded to the validating function) before any return; replace's count is not findall's count"],
+            "start/end are validated (or forwarded to the validating function) before any return; replace's count is not findall's count",
+            "positions given as a range are not reinterpreted as slice bounds (negative and out-of-range bounds mean different things)"],
    declined=["equality of the resulting sequence with the documented operation, return values, length preservation in "
              "general (run-time)"],
    explanation="Path walk of every effectful public mutator (effects from the store-effect summaries), bound derivation "
@@ -268,7 +271,7 @@ _p('C20', ['M', 'D1', 'D5', 'N1', 'N2', 'N2a', 'N3', 'N4', 'N5', 'A5', 'B1', 'PO
                "resolution, global-write census.",
    floors={'M': 1000, 'D1': 150, 'N1': 20, 'N2': 20})
 
-_p('C02', ['H4', 'H2', 'H3', 'LV', 'OPTDEP', 'A7', 'F2', 'F5'],
+_p('C02', ['H4', 'H2', 'H3', 'LV', 'OPTDEP', 'A7', 'F2', 'F5', 'INTEX'],
    decided=["every creation route (constructor keyword, property assignment, token string, Dtype.build, pack, Array "
             "element) and every reading route (property, property with length, Dtype.parse, unpack, read) dispatches "
             "through the registry's set/get/read function for the name, so routes cannot disagree",
@@ -277,13 +280,13 @@ _p('C02', ['H4', 'H2', 'H3', 'LV', 'OPTDEP', 'A7', 'F2', 'F5'],
             "getters refuse partial bytes; float be/le differ only in the struct prefix",
             "length tables agree: allowed_lengths of float/bfloat/bool/8-bit floats/endian integers vs the lengths the "
             "setters and format tables accept; stated length vs built length compared on every route",
-            "interpretations depend on no module option except the documented ones; struct formats used by an integer getter/setter have its signedness, byte order and size; cached token lists are never mutated"],
+            "interpretations depend on no module option except the documented ones; struct formats used by an integer getter/setter have its signedness, byte order and size; cached token lists are never mutated; integer dtypes of any width stay in exact integer arithmetic (no float on the value path)"],
    declined=["exact canonical encodings and parse(build(v)) == v for all values and lengths: numerical, done inside "
              "bitarray/struct on run-time values"],
    explanation="Role-dispatch census over the creation and reading routes (resolved calls through Dtype.set_fn/get_fn/"
                "read_fn), structural comparison of the integer setters/getters, table agreement.")
 
-_p('C12', ['G1', 'G2', 'G3', 'G5', 'E8', 'E5', 'E9', 'N1', 'F2'],
+_p('C12', ['G1', 'G2', 'G3', 'G5', 'E8', 'E5', 'E9', 'N1', 'F2', 'IDX1', 'RNG', 'SLN'],
    decided=["switching the option off restores msb0 behaviour exactly; the switch is complete (both tables assign the "
             "same 13 slots, variants differ and agree on parameters, nothing else rebinds a slot)",
             "whole-value interpretations, ==, hash, len, tobytes and the stored bit order of every ingest route are "
@@ -315,13 +318,15 @@ _p('C15', ['CHOKE', 'E5', 'E4', 'LV', 'H3', 'H2', 'B2', 'D2', 'N2a', 'F2', 'OPT'
    explanation="Who-may-call and guard-dominance check of the Dtype choke point, sibling agreement of setters and ingest "
                "routes, validate-before-mutate path rule.")
 
-_p('C19', ['ESC', 'POST', 'H3', 'N2', 'CHOKE', 'I'],
+_p('C19', ['ESC', 'POST', 'H3', 'N2', 'CHOKE', 'I', 'LZ'],
    decided=["pp output contains no terminal escape sequences when options.no_color is set: escape literals occur only in "
             "Colour.__new__ under `if use_colour`, the else branch assigns empty strings to the same attributes, and "
             "every Colour is constructed from `not options.no_color`",
             "repr of a stream carries its pos",
             "layout tables name only dtypes with a character-width function; the divisions of pp/_pp cannot be by zero; "
-            "negative group lengths are rejected at the Dtype choke point"],
+            "negative group lengths are rejected at the Dtype choke point",
+            "every digit is shown, in its necessary part: no rendering path below str/repr/pp/bin/hex/oct formats bit content "
+            "through a width-less integer format (which would drop leading zeros)"],
    declined=["re-parsability of str/repr, truncation marks, digit order, group integrity and line widths of pp: layout "
              "arithmetic on run-time values"],
    explanation="Literal census for escape sequences with branch placement, construction-site check of Colour, table and "
